@@ -306,6 +306,11 @@ def main(ctx: Ctx) -> None:
                             "followed by a normal run compared with the cold run; non-trivial when the faulty run had re-analysed a user "
                             "module; distinct by (pair, config, fault)")
     proved = ctx.prove("MypyVerif.Props.C04", MODEL_FILES)
+    from translate import plugcfg
+    plugcfg.main()
+    proved_plug = ctx.prove("MypyVerif.Props.C04Plug", ["MypyVerif/Model/PlugSnap.lean"])
+    ctx.trusted("model: Model/PlugSnap.lean (entries tied to the plugins they were computed with; global record vs the entry's own "
+                "options snapshot); the configuration is regenerated by translate/plugcfg.py from options_snapshot (AST)")
     ctx.trusted("model: Model/Store.lean (per-module data/meta/meta_ex records, write order of process_stale_scc and of the parallel "
                 "interface/implementation phases, failure control flow); records carry ghost analysis tags",
                 "SQLite transaction atomicity under process death and os.replace atomicity; a kill happens between Python-level store calls "
@@ -387,6 +392,11 @@ def main(ctx: Ctx) -> None:
                            f"{what} ({res['config']}; {where}): {d[:2]}", replay)
     parallel_worker_faults(ctx)
     plugin_kill(ctx)
+    if not proved_plug and not ctx.violations:
+        ctx.violation("Lean development for the plugins part of C04 no longer checks (cfg_records: the entry's options snapshot does not "
+                      "record the active plugins, or the model no longer builds); the plugin-kill scenario found no stale follow-up run",
+                      {"broken": "Props/C04Plug.lean (cfg_records / trusted_was_computed_with_these_plugins)", "ties": ctx.broken_ties},
+                      found_input=False)
     if results:
         r = results[0]
         ctx.sample({"pair": r["pid"], "ops_of_warm_run": r["ops"], "faults_tried": len(r["faults"]),
